@@ -179,4 +179,14 @@ def c17(tier, seed):
         rep.violation("c-vs-rust-open", f"clockbound_open and the Rust clients disagree on '{d['file']}'", {"kind": "files-open", "case": d})
     for d in fs["c_died"][:3]:
         rep.violation("c-crash-on-open", f"clockbound_open crashed on '{d['file']}'", {"kind": "files-open", "case": d})
+    # total size: a file the daemon had to re-create is exactly the documented 72 bytes
+    p = cb.run([fbin, "repair", "--seed", str(seed), "--n", "64"], timeout=900)
+    if p.returncode == 0:
+        res = json.loads(p.stdout.strip().splitlines()[-1])
+        rep.evaluations += res["files"]
+        rep.notes.append(f"re-created files: {res['recreated']} of {res['files']} start files re-created by ShmWriter::new, each checked against the documented layout")
+        for v in res["violations"][:5]:
+            for x in v["violations"]:
+                if x["signature"] in ("recreated-layout", "published-bytes", "version-after-new"):
+                    rep.violation("recreated-" + x["signature"], f"start-up over '{v['file']}': {x['what']}", {"kind": "files-repair", "case": v})
     return rep.finish()
